@@ -612,7 +612,7 @@ def describe(c):
 
 def run_impl(c):
     from clikit.args import DefaultArgsParser
-    fmt = G.mk_format(G.case_levels(c))
+    fmt = G.case_format(c)
     return G.parse_once(DefaultArgsParser(), fmt, c["toks"], bool(c["len"]), EXTRA)
 
 
